@@ -58,7 +58,7 @@ def _verify_one(args):
         return {"key": key, "status": r.status, "reason": r.reason, "obligations": obls, "paths": r.paths,
                 "solver_time": r.solver_time, "wall": r.wall, "sha256": r.sha256, "inlined": sorted(r.inlined),
                 "used_contracts": sorted(r.used_contracts), "used_trusted": sorted(r.used_trusted),
-                "exits": r.exits, "props": c.props}
+                "exits": r.exits, "props": c.props, "cvc5": getattr(r, "by_backend", {}).get("cvc5", 0)}
     except Exception:
         return {"key": key, "status": "error", "reason": traceback.format_exc(), "obligations": {}, "paths": 0,
                 "solver_time": 0, "wall": 0, "sha256": "", "inlined": [], "used_contracts": [], "used_trusted": [],
@@ -175,7 +175,9 @@ def run_property(pid, tier, seed, jobs):
             "trusted_base": sorted("lib:" + t for t in trusted) + sorted("inlined:" + i for i in inlined)
             + sorted("assumed-contract:" + k for k in used if getattr(reg.get(k), "coarse", False)
                      or getattr(reg.get(k), "trusted", False)),
-            "by_kind": by_kind, "by_backend": {"z3-%s" % _z3v(): n_ok},
+            "by_kind": by_kind,
+            "by_backend": {"z3-%s" % _z3v(): "all path VCs not listed under cvc5",
+                           "cvc5-1.0.3 (path VCs z3 left unknown)": sum(r.get("cvc5", 0) for r in results)},
             "solver_time_s": round(solver_time, 2),
             "functions_under_contract": funcs,
             "callee_contracts_used": sorted(used),
